@@ -25,7 +25,8 @@ def main():
     print("watchdog loaded from", w["watchdog"].__file__)
     os.makedirs(os.path.join(V, "evidence"), exist_ok=True)
     os.makedirs(os.path.join(V, "replays"), exist_ok=True)
-    return 1 if bad else 0
+    # a specification that does not parse makes its own check fail (exit 2); setup itself only reports
+    return 0
 
 
 if __name__ == "__main__":
